@@ -260,28 +260,75 @@ theorem terminates_when_matchable_full (limits : Nat → Nat) (as : List Action)
 
 /-- non-vacuity / the ghost at work: A `(ev/select [c0 1001] c1)` suspends registered as writer on c0 and reader on c1 and
     nowhere else; after B `(ev/give c1 2001)` A has been scheduled (sched_id bumped, one live task); the recorded
-    operation is the select with the sched_id A had when it began. -/
+    operation is the select with the sched_id A had when it began (2: scheduled once by ev/go, resumed once). -/
 example :
     let r := runG Cfg.good (World.start fun _ => 0) (fun _ => none)
       [.timers, .runTask, .go 1, .go 2, .finish false, .runTask, .select [.give 0 1001, .take 1]]
-    (r.1.fibers 1).status = .pending ∧ r.2 1 = some ⟨.select [.give 0 1001, .take 1], 1⟩ ∧ (r.1.fibers 1).sched = 1 ∧
-    regWb r.1 1 1 0 = true ∧ regRb r.1 1 1 1 = true ∧ regRb r.1 1 1 0 = false ∧ regWb r.1 1 1 1 = false := by decide
+    (r.1.fibers 1).status = .pending ∧ r.2 1 = some ⟨.select [.give 0 1001, .take 1], 2⟩ ∧ (r.1.fibers 1).sched = 2 ∧
+    regWb r.1 1 2 0 = true ∧ regRb r.1 1 2 1 = true ∧ regRb r.1 1 2 0 = false ∧ regWb r.1 1 2 1 = false := by decide
 
 example :
     let r := runG Cfg.good (World.start fun _ => 0) (fun _ => none)
       [.timers, .runTask, .go 1, .go 2, .finish false, .runTask, .select [.give 0 1001, .take 1], .runTask, .give 1 2001]
-    (r.1.fibers 1).status = .pending ∧ r.2 1 = some ⟨.select [.give 0 1001, .take 1], 1⟩ ∧ (r.1.fibers 1).sched = 2 ∧
+    (r.1.fibers 1).status = .pending ∧ r.2 1 = some ⟨.select [.give 0 1001, .take 1], 2⟩ ∧ (r.1.fibers 1).sched = 3 ∧
     r.1.runq.map (·.fiber) = [1] := by decide
 
+/-! ## order between one giver and one taker -/
+
+theorem sublist_pair_mem {α : Type} {x y : α} {l : List α} (h : List.Sublist [x, y] l) : x ∈ l ∧ y ∈ l :=
+  ⟨h.subset (by simp), h.subset (by simp)⟩
+
+/-- in a list without repetition two elements occur in one order only -/
+theorem nodup_pair_order {α : Type} {x y : α} :
+    ∀ {l : List α}, l.Nodup → List.Sublist [x, y] l → List.Sublist [y, x] l → False := by
+  intro l
+  induction l with
+  | nil => intro _ h _; cases h
+  | cons a t ih =>
+    intro hnd h1 h2
+    have hnd' := (List.nodup_cons.mp hnd)
+    cases h1 with
+    | cons _ h1' =>
+      cases h2 with
+      | cons _ h2' => exact ih hnd'.2 h1' h2'
+      | cons_cons _ h2' => exact hnd'.1 (sublist_pair_mem h1').2
+    | cons_cons _ h1' =>
+      cases h2 with
+      | cons _ h2' => exact hnd'.1 (sublist_pair_mem h2').2
+      | cons_cons _ h2' => exact hnd'.1 (h1'.subset (by simp))
+
+/-- **order_per_giver_handout** (corollary of `fifo_per_channel`): after every action sequence, if `x` was pushed into
+    channel `c` before `y` (`[x, y]` is a sublist of c's push log - in particular when one giver `g` gave `x` and later
+    `y` on `c`: the give events of `g` on `c` are a sublist of c's push log, pushes being appended in call order) and
+    values are not repeated on `c`, then `c` never hands `y` out before `x` - to whichever taker. -/
+theorem order_per_giver_handout (limits : Nat → Nat) (as : List Action) (c x y : Nat) :
+    let w := run currentCfg (World.start limits) as
+    (onChan w.ghost.pushed c).Nodup → List.Sublist [x, y] (onChan w.ghost.pushed c) →
+    ¬ List.Sublist [y, x] (onChan w.ghost.handed c) := by
+  intro w hnd hxy hyx
+  have hf := fifo_per_channel limits as c
+  have hpre : List.Sublist (onChan w.ghost.handed c) (onChan w.ghost.pushed c) := by
+    show List.Sublist _ (onChan (run currentCfg (World.start limits) as).ghost.pushed c)
+    rw [hf]; exact List.sublist_append_left _ _
+  exact nodup_pair_order hnd hxy (hyx.trans hpre)
+
 /-- `noSelfMatch` is needed: `(ev/select c0 [c0 5] c0)` alone in a fiber is matched with itself in the registration
-    loop; when the fiber runs again - its select has returned `[:take c0 5]` - it still has a current registration in
-    c0's read queue, which `no_lost_wakeup` (`WQuiet`) excludes.  (Configuration with every check.) -/
+    loop.  The fiber is then suspended WITH a live wake-up task AND a current registration in c0's read queue (made after
+    it scheduled itself), which `no_lost_wakeup` (`d3`) excludes; a giver on c0 arriving before the fiber runs would
+    schedule it a second time and the first task - carrying the 5 it gave itself - would be dropped.
+    (Configuration with every check.)  On a source WITHOUT the bump at resume the registration even stays current after
+    the select has returned `[:take c0 5]` (`WQuiet` fails; second part); with the bump it is stale from then on. -/
 def selfMatchActs : List Action :=
-  [.timers, .runTask, .go 1, .finish false, .runTask, .select [.take 0, .give 0 5, .take 0], .runTask]
+  [.timers, .runTask, .go 1, .finish false, .runTask, .select [.take 0, .give 0 5, .take 0]]
 
 theorem noSelfMatch_needed :
-    let w := run Cfg.good (World.start fun _ => 0) selfMatchActs
-    w.current = some 1 ∧ (w.chans 0).readPending.any (fun p => p.fiber == 1 && p.live w.fibers) = true ∧
-    w.ghost.received = [(1, 5)] := by decide
+    (let w := run Cfg.good (World.start fun _ => 0) selfMatchActs
+     (w.fibers 1).status = .pending ∧ Ev.LT w.fibers w.runq 1 = 1 ∧
+     (w.chans 0).readPending.any (fun p => p.fiber == 1 && p.live w.fibers) = true) ∧
+    (let w := run { Cfg.good with resumeBumps := false } (World.start fun _ => 0) (selfMatchActs ++ [.runTask])
+     w.current = some 1 ∧ (w.chans 0).readPending.any (fun p => p.fiber == 1 && p.live w.fibers) = true ∧
+     w.ghost.received = [(1, 5)]) ∧
+    (let w := run Cfg.good (World.start fun _ => 0) (selfMatchActs ++ [.runTask])
+     w.current = some 1 ∧ (w.chans 0).readPending.any (fun p => p.fiber == 1 && p.live w.fibers) = false) := by decide
 
 end JanetModel.Props.C06
